@@ -68,6 +68,9 @@ func H11long() {
 	for i := 0; i < 339; i++ {
 		in = append(in, "ab "...)
 	}
+	// 1017..1021 bytes of words before the symbolic bytes: they meet the boundary in the input, in
+	// the normalized text, in both or in neither
+	in = append(in, []string{"", "c ", "cd ", "c d "}[vxChoice(4)]...)
 	in = append(in, vxBytes(2)...)
 	in = append(in, " tail of the line\nzz yy\n"...)
 	h11a(in, "long")
